@@ -30,6 +30,15 @@ let n_list_of_toks (t : toks) : n list =
 
 let last_before : parser0 option ref = ref None
 
+(* per-step CPU budget for the model: a changed implementation can hand the model a pre-state / input on which the list model is
+   quadratic (e.g. a huge REP with auto-wrap still on because the preceding CSI ?7l was misparsed); the step is then reported as a
+   divergence `model.timeout` and the run goes on, so that the statements are still evaluated on the rest of the run *)
+exception Step_timeout
+let step_budget_s = 3.0
+let () = Sys.set_signal Sys.sigvtalrm (Sys.Signal_handle (fun _ -> raise Step_timeout))
+let arm () = ignore (Unix.setitimer Unix.ITIMER_VIRTUAL { Unix.it_interval = 0.0; it_value = step_budget_s })
+let disarm () = ignore (Unix.setitimer Unix.ITIMER_VIRTUAL { Unix.it_interval = 0.0; it_value = 0.0 })
+
 let run_chars (v : vt) (cs : n list) : (vt * func option) res * int =
   (* feed all but the last char expecting no function; returns the function of the last one.
      Also returns how many of the earlier chars emitted a function (should be 0).
@@ -272,6 +281,7 @@ let () =
            else if coll = 2 then kf "C14" "KF-C14-1"
        | "S" | "PANIC" -> (
            let post = if tag = "S" then Some (vt_of_line l) else None in
+           (try arm ();
            (match (!pre, !pending_op) with
            | None, _ -> (
                (* initial state of a case: compare with the model's constructor *)
@@ -409,6 +419,8 @@ let () =
                | Model.Ok _, None -> emit_div opn opn [ "panic.impl" ]
                | Panic _, None -> bump "panic.both")
            | Some _, `None -> ());
+            disarm ()
+            with Step_timeout -> disarm (); emit_div (match !pending_op with `Chars _ -> "C" | `Flush -> "L" | `Resize _ -> "R" | `None -> "N") "timeout" [ "model.timeout" ]);
            pre := post;
            pending_op := `None;
            pending_out := None;
